@@ -275,7 +275,7 @@ func observe(d *dawg.Dawg, blank byte, pats [][]byte) string {
 func makeSource(sc source) (d *dawg.Dawg, what string) {
 	if sc.stream != nil {
 		d = new(dawg.Dawg)
-		if err := d.GobDecode(append([]byte{}, sc.stream...)); err != nil {
+		if err := decodeScribble(d, sc.stream, 0); err != nil {
 			return nil, "src-decode-error"
 		}
 		return d, ""
@@ -293,7 +293,7 @@ func makeSource(sc source) (d *dawg.Dawg, what string) {
 func roundTrip(c tcase, sc source, wf string, b []byte) (proj, strict string, viol []hx.OracleViolation) {
 	strict = "bytes=" + clip(hex.EncodeToString(b))
 	d2 := new(dawg.Dawg)
-	if err := d2.GobDecode(append([]byte{}, b...)); err != nil {
+	if err := decodeScribble(d2, b, 1); err != nil {
 		return "decode-error", strict, []hx.OracleViolation{hx.Fail("C14:decode-error", "GobDecode rejects the output of GobEncode: %v", err)}
 	}
 	dec := observe(d2, c.blank, c.pats)
@@ -380,7 +380,7 @@ func Exec(line string) hx.Result {
 	// into a receiver that already holds another automaton
 	d4, err4 := dawg.New([][]byte{{}, []byte("a"), []byte("ab"), []byte("b"), {0xff, 0x00}})
 	if err4 == nil {
-		if err := d4.GobDecode(append([]byte{}, b...)); err != nil {
+		if err := decodeScribble(d4, b, 2); err != nil {
 			viol = append(viol, hx.Fail("C14:decode-error-used-receiver", "GobDecode into a used receiver: %v", err))
 		} else if o4 := observe(d4, c.blank, c.pats); o4 != orig {
 			viol = append(viol, hx.Fail("C14:used-receiver-differs", "decoding into a used receiver: original %s decoded %s", short(orig, 300), short(o4, 300)))
@@ -395,7 +395,7 @@ func Exec(line string) hx.Result {
 		b5copy := append([]byte{}, b5...)
 		if err != nil {
 			viol = append(viol, hx.Fail("C14:encode-error", "GobEncode: %v", err))
-		} else if err := d5.GobDecode(append([]byte{}, b...)); err != nil {
+		} else if err := decodeScribble(d5, b, 3); err != nil {
 			viol = append(viol, hx.Fail("C14:decode-error-used-receiver", "GobDecode into a receiver that was encoded before: %v", err))
 		} else if o5 := observe(d5, c.blank, c.pats); o5 != orig {
 			viol = append(viol, hx.Fail("C14:used-receiver-differs", "decoding into a receiver that was encoded before: original %s decoded %s", short(orig, 300), short(o5, 300)))
@@ -447,9 +447,41 @@ func Exec(line string) hx.Result {
 		Buckets: []string{"kind:" + kind, "words:" + cross(len(words)), "nodes:" + cross(len(dump)), "branch:" + cross(maxBranch), "maxid:" + crossID(maxID)}}
 }
 
+// Input aliasing: the caller of GobDecode owns the byte slice it passes and may overwrite or
+// reuse it as soon as the call returns (a loader reading several automata through one scratch
+// buffer).  Every direct GobDecode of the harness therefore decodes from a private buffer and
+// overwrites that buffer (its whole capacity) before the decoded automaton is observed: with
+// zeros, with 0xff, with every byte changed, or with another valid encoding written over it.
+var otherEncoding = streamWithPerm([][]byte{[]byte("qz"), []byte("z"), []byte("zq")}, []int{2, 0, 1})
+
+func scribble(buf []byte, mode int) {
+	buf = buf[:cap(buf)]
+	for i := range buf {
+		switch mode % 4 {
+		case 0:
+			buf[i] = 0
+		case 1:
+			buf[i] = 0xff
+		case 2:
+			buf[i] ^= 0x55
+		default:
+			buf[i] = otherEncoding[i%len(otherEncoding)]
+		}
+	}
+}
+
+// decodeScribble: d.GobDecode(b) from a buffer that is overwritten right after the call.  The
+// way of overwriting depends on the call site and on the length (deterministic per case).
+func decodeScribble(d *dawg.Dawg, b []byte, site int) error {
+	buf := append(make([]byte, 0, len(b)+site%3), b...)
+	err := d.GobDecode(buf)
+	scribble(buf, site+len(b))
+	return err
+}
+
 func mustDecode(b []byte) *dawg.Dawg {
 	d := new(dawg.Dawg)
-	if err := d.GobDecode(append([]byte{}, b...)); err != nil {
+	if err := decodeScribble(d, b, 5); err != nil {
 		return new(dawg.Dawg)
 	}
 	return d
